@@ -259,7 +259,7 @@ pub fn run(cli: &Cli) -> (Value, Vec<Violation>) {
                 }
                 acc.outcomes.insert(format!("gap={}", min_served.saturating_sub(max_reach.max(max_snap)).min(5)));
                 // ---- oracle 2: adoption by real proxies (subset of cases)
-                let do_adopt = thorough || (pi % 5 == 0 && ai < 3) || ai == 0 && pi % 2 == 0;
+                let do_adopt = if thorough { ai < 3 || (pi + i) % 7 == 0 } else { (pi % 5 == 0 && ai < 3) || ai == 0 && pi % 2 == 0 };
                 if do_adopt {
                     acc.adoption_cases += 1;
                     let recovered = after_snap.clone();
